@@ -6,7 +6,10 @@
                                            `universal` is the newline translation of a text-mode file
                                            (`open(path, "r")` as tt.py does; io.StringIO does none)
    - `_EMPTY_RE.fullmatch`, `_COUNTER_RE.search`, `_TIMECODE_RE.search` -> `is_blank`, `has_digit`,
-                                           `search_tc` (recognisers; `\s`, `\d` from Gen/SrtTables.v)
+                                           `search_tc` (recognisers; `\s`, `\d` from Gen/SrtTables.v; hour fields of two
+                                           or more digits)
+   - `int(m.group(...))`                -> `int_of_digits`, and `int_converts`: ValueError beyond
+                                           sys.get_int_max_str_digits() digits (Gen/SrtTables.v)
    - the COUNTER/TC/TEXT/TEXT_MORE loop -> `step` / `run` (the `None` sentinel is `at_eof`)
    - `.strip('\r\n').replace(...)` x13  -> `strip_crlf`, `replace`, `rewrite_text`
    - `line.rstrip("\r\n") + "\n"`        -> `rstrip_crlf line ++ [10]` in `step`
@@ -18,7 +21,7 @@
      tokenizer for start tags with attributes, end tags, self-closing tags, character references
      (full `html.unescape` over the generated tables) and data.  Constructs it does not transcribe
      (`<!`, `<?`, unterminated tags or quotes, `<script>`/`<style>`, oddities of the attribute
-     regexes, non-ASCII colour values) give `TBad`, and the reader's outcome is `Unmodelled`.
+     regexes) give `TBad`, and the reader's outcome is `Unmodelled`.
      Its agreement with html.parser is established by the correspondence run only (trusted base).
    No proofs in this file. *)
 From TT Require Import Base.Prelude Base.SrtTypes Gen.SrtTables.
@@ -91,10 +94,16 @@ Fixpoint take_digits (n : nat) (s : text) : option (text * text) :=
            | [] => None
            end
   end.
-(* [0-9]{2,3} is greedy; when three digits are present the two-digit alternative would need ':' where
-   the third digit stands, so backtracking never succeeds and the choice below is the regex's *)
+(* [0-9]{2,} is greedy: it takes every digit that follows; a shorter choice would need ':' where a digit
+   stands, so backtracking never succeeds and the choice below is the regex's *)
+Fixpoint take_all_digits (s : text) : text * text :=
+  match s with
+  | c :: s' => if is_digit c then let '(d, r) := take_all_digits s' in (c :: d, r) else ([], s)
+  | [] => ([], [])
+  end.
 Definition take_hours (s : text) : option (text * text) :=
-  match take_digits 3 s with Some r => Some r | None => take_digits 2 s end.
+  let '(d, r) := take_all_digits s in
+  match d with _ :: _ :: _ => Some (d, r) | _ => None end.
 Definition expect (c : Z) (s : text) : option text :=
   match s with x :: s' => if x =? c then Some s' else None | [] => None end.
 Fixpoint skip_spaces (s : text) : text :=
@@ -126,6 +135,10 @@ Fixpoint search_tc (l : text) : option tcm :=                 (* _TIMECODE_RE.se
   | Some g => Some g
   | None => match l with [] => None | _ :: l' => search_tc l' end
   end.
+
+(* int(group): CPython refuses to convert a digit string longer than sys.get_int_max_str_digits() (4 300 unless
+   reconfigured; leading zeros count) and raises ValueError.  Only the hour groups can be that long. *)
+Definition int_converts (ds : text) : bool := Z.of_nat (length ds) <=? int_max_str_digits.
 
 (* int(h) * 3600 + int(m) * 60 + int(s) + Fraction(int(ms), 1000), normalised as Fraction does *)
 Definition seconds_of (h m s ms : text) : Q :=
@@ -436,55 +449,87 @@ Fixpoint tok (skip : nat) (pending : text) (s : text) : list token :=
 Definition tokenize (s : text) : list token := tok O [] s.
 
 (* ------------------------------------------------------------------ utils.parse_color *)
-Definition digits1 (s : text) : option (Z * text) :=           (* (\d+) on ASCII input *)
+Definition is_space_ascii (c : Z) : bool := ((9 <=? c) && (c <=? 13)) || (c =? 32).     (* \s under re.ASCII: [ \t\n\r\f\v] *)
+Fixpoint skip_spaces_ascii (s : text) : text :=
+  match s with c :: s' => if is_space_ascii c then skip_spaces_ascii s' else s | [] => [] end.
+
+(* _color_component: (\d+) under re.ASCII, int() of the group and the test against 255: the number, or None where
+   ValueError is raised (more digits than the interpreter converts, or a value above 255) *)
+Definition digits1 (s : text) : option (option Z * text) :=
   let '(ds, r) := take_while is_digit s in
-  match ds with [] => None | _ => Some (int_of_digits ds, r) end.
+  match ds with
+  | [] => None
+  | _ => Some (if int_converts ds then (let n := int_of_digits ds in if 255 <? n then None else Some n) else None, r)
+  end.
 Fixpoint expects (p s : text) : option text :=
   match p with
   | [] => Some s
   | x :: p' => match s with y :: s' => if x =? y then expects p' s' else None | [] => None end
   end.
+Definition at_end (s : text) : option unit := match s with [] => Some tt | _ => None end.   (* fullmatch *)
 
+(* _HEX_COLOR_RE.fullmatch: '#' and exactly three or four pairs of hexadecimal digits *)
 Definition hex_color (v : text) : option rgba :=
   match v with
-  | 35 :: a :: b :: c :: d :: e :: f :: r =>
+  | [35; a; b; c; d; e; f] =>
       if is_hex a && is_hex b && is_hex c && is_hex d && is_hex e && is_hex f then
-        Some (int_of_hex [a; b], int_of_hex [c; d], int_of_hex [e; f],
-              match r with
-              | g :: h :: _ => if is_hex g && is_hex h then int_of_hex [g; h] else 255
-              | _ => 255
-              end)
+        Some (int_of_hex [a; b], int_of_hex [c; d], int_of_hex [e; f], 255)
+      else None
+  | [35; a; b; c; d; e; f; g; h] =>
+      if is_hex a && is_hex b && is_hex c && is_hex d && is_hex e && is_hex f && is_hex g && is_hex h then
+        Some (int_of_hex [a; b], int_of_hex [c; d], int_of_hex [e; f], int_of_hex [g; h])
       else None
   | _ => None
   end.
-Definition dec_color (v : text) : option rgba :=               (* rgb\(\s*(\d+)\s*,\s*(\d+)\s*,\s*(\d+)\s*\) *)
+(* ColorType((_color_component(g1), ...)): any component that fails raises ValueError *)
+Definition rgba_of (r g b a : option Z) : outcome rgba :=
+  match r, g, b, a with
+  | Some r, Some g, Some b, Some a => Ok (r, g, b, a)
+  | _, _, _, _ => Raised EValueError
+  end.
+(* None: the pattern does not match the whole value *)
+Definition dec_color (v : text) : option (outcome rgba) :=     (* rgb\(\s*(\d+)\s*,\s*(\d+)\s*,\s*(\d+)\s*\) *)
   bind (expects [114;103;98;40] v) (fun s =>
-  bind (digits1 (skip_spaces s)) (fun '(r, s) =>
-  bind (expect 44 (skip_spaces s)) (fun s =>
-  bind (digits1 (skip_spaces s)) (fun '(g, s) =>
-  bind (expect 44 (skip_spaces s)) (fun s =>
-  bind (digits1 (skip_spaces s)) (fun '(b, s) =>
-  bind (expect 41 (skip_spaces s)) (fun _ => Some (r, g, b, 255)))))))).
-Definition dec_colora (v : text) : option rgba :=              (* rgba\(\s*(\d+),\s*(\d+)\s*,\s*(\d+)\s*,\s*(\d+)\s*\) *)
+  bind (digits1 (skip_spaces_ascii s)) (fun '(r, s) =>
+  bind (expect 44 (skip_spaces_ascii s)) (fun s =>
+  bind (digits1 (skip_spaces_ascii s)) (fun '(g, s) =>
+  bind (expect 44 (skip_spaces_ascii s)) (fun s =>
+  bind (digits1 (skip_spaces_ascii s)) (fun '(b, s) =>
+  bind (expect 41 (skip_spaces_ascii s)) (fun s =>
+  bind (at_end s) (fun _ => Some (rgba_of r g b (Some 255)))))))))).
+Definition dec_colora (v : text) : option (outcome rgba) :=    (* rgba\(\s*(\d+),\s*(\d+)\s*,\s*(\d+)\s*,\s*(\d+)\s*\) *)
   bind (expects [114;103;98;97;40] v) (fun s =>
-  bind (digits1 (skip_spaces s)) (fun '(r, s) =>
+  bind (digits1 (skip_spaces_ascii s)) (fun '(r, s) =>
   bind (expect 44 s) (fun s =>
-  bind (digits1 (skip_spaces s)) (fun '(g, s) =>
-  bind (expect 44 (skip_spaces s)) (fun s =>
-  bind (digits1 (skip_spaces s)) (fun '(b, s) =>
-  bind (expect 44 (skip_spaces s)) (fun s =>
-  bind (digits1 (skip_spaces s)) (fun '(a, s) =>
-  bind (expect 41 (skip_spaces s)) (fun _ => Some (r, g, b, a)))))))))).
+  bind (digits1 (skip_spaces_ascii s)) (fun '(g, s) =>
+  bind (expect 44 (skip_spaces_ascii s)) (fun s =>
+  bind (digits1 (skip_spaces_ascii s)) (fun '(b, s) =>
+  bind (expect 44 (skip_spaces_ascii s)) (fun s =>
+  bind (digits1 (skip_spaces_ascii s)) (fun '(a, s) =>
+  bind (expect 41 (skip_spaces_ascii s)) (fun s =>
+  bind (at_end s) (fun _ => Some (rgba_of r g b a))))))))))).
+
+(* str.lower(attr_value) as far as membership in NamedColors.__members__ (ASCII keys) needs it: the lower-cased value when
+   it is ASCII, None when some character's lower case is not ASCII (the value is then no key).  A character outside ASCII
+   lower-cases into ASCII only where Gen/SrtTables.v lower_to_ascii says so (U+212A KELVIN SIGN -> k). *)
+Fixpoint lower_key (v : text) : option text :=
+  match v with
+  | [] => Some []
+  | c :: r =>
+      match (if c <? 128 then Some [lower_ascii c] else assocz c lower_to_ascii) with
+      | Some l => match lower_key r with Some k => Some (l ++ k) | None => None end
+      | None => None
+      end
+  end.
 
 Definition parse_color (v : text) : outcome rgba :=
-  if negb (forallb (fun c => c <? 128) v) then Unmodelled     (* str.lower / \d beyond ASCII not transcribed *)
-  else match assoc (lower v) named_colors with
-       | Some c => Ok c
-       | None =>
-           match hex_color v with Some c => Ok c | None =>
-           match dec_color v with Some c => Ok c | None =>
-           match dec_colora v with Some c => Ok c | None => Raised EValueError end end end
-       end.
+  match (match lower_key v with Some k => assoc k named_colors | None => None end) with
+  | Some c => Ok c
+  | None =>
+      match hex_color v with Some c => Ok c | None =>
+      match dec_color v with Some o => o | None =>
+      match dec_colora v with Some o => o | None => Raised EValueError end end end
+  end.
 
 (* ------------------------------------------------------------------ _TextParser *)
 (* self.parent / self.open_tags: the open spans innermost first, each with the tag name recorded for it, its
@@ -501,10 +546,14 @@ Definition push_kids (frames : list frame) (pk : list elem) (es : list elem) : c
 
 Definition t_font : text := [102;111;110;116].  Definition t_color : text := [99;111;108;111;114].
 
-Fixpoint find_color (attrs : list attr) : option (option text) :=
+(* `for attr in attrs: if attr[0] == "color" and attr[1] is not None: ... break`: the first color attribute that has a
+   value; a color attribute without a value (<font color>) is passed over *)
+Fixpoint find_color (attrs : list attr) : option text :=
   match attrs with
   | [] => None
-  | (n, v) :: a' => if text_eqb n t_color then Some v else find_color a'
+  | (n, v) :: a' =>
+      if text_eqb n t_color then match v with Some x => Some x | None => find_color a' end
+      else find_color a'
   end.
 
 (* style given to the span of a start tag *)
@@ -515,9 +564,8 @@ Definition tag_style (tag : text) (attrs : list attr) : outcome sstyle :=
   else if text_eqb tag t_u || text_eqb tag t_underline then Ok (mkSt false false true None)
   else if text_eqb tag t_font then
     match find_color attrs with
-    | Some (Some v) => outcome_map (fun c => mkSt false false false (Some c)) (parse_color v)
-    | Some None => Raised ETypeError                   (* parse_color(None): str.lower(None) *)
-    | None => Ok st0                                   (* "Font tag without a color attribute" *)
+    | Some v => outcome_map (fun c => mkSt false false false (Some c)) (parse_color v)
+    | None => Ok st0                                   (* "Font tag without a color attribute" (for ... else) *)
     end
   else Ok st0.                                         (* "Unknown tag" *)
 
@@ -627,6 +675,10 @@ Definition step (s : mstate) (line : text) : stepres :=
       match search_tc line with
       | None => Stop RetNone
       | Some g =>
+          (* set_begin(int(begin_h) ...) then set_end(int(end_h) ...): either conversion may raise ValueError, which
+             leaves to_model *)
+          if negb (int_converts (g_bh g) && int_converts (g_eh g)) then Stop (Raised EValueError)
+          else
           Continue (mkM TEXT (m_done s)
                         (seconds_of (g_bh g) (g_bm g) (g_bs g) (g_bms g),
                          seconds_of (g_eh g) (g_em g) (g_es g) (g_ems g))
